@@ -14,6 +14,38 @@ CLEARING = ('binson_writer_init', 'binson_writer_reset')
 class WHooks(LibHooks):
     """records every write that reaches the output buffer and the counter updates"""
 
+    def _counter(self, st):
+        F = self.lay.writer
+        c = (st.cells('W') or {}).get(((F['buffer_used'][0], ()), F['buffer_used'][1]))
+        return c[2] if c is not None else None
+
+    def on_call(self, st, name, args, ins):
+        if name == '_write' and len(args) == 2 and isinstance(args[1], Ptr) and 'W' in st.regions:
+            bo = self.lay.bbuf['bsize']
+            c = (st.cells(args[1].region) or {}).get((args[1].off.add(bo[0]).key(), bo[1]))
+            st.tags[('wcall', len(st.frames))] = (self._counter(st), c[2] if c is not None else None, ins.loc())
+
+    def on_return(self, st, fn, ret):
+        if fn.name == '_write' and 'W' in st.regions:
+            rec = st.tags.pop(('wcall', len(st.frames) - 1), None)
+            if rec is None:
+                return
+            before, bsize, loc = rec
+            after = self._counter(st)
+            ok = False
+            if isinstance(before, Int) and isinstance(bsize, Int) and isinstance(after, Int):
+                want = before.a.add(bsize.a)
+                if after.a == want:
+                    ok = True
+                else:
+                    sg = after.a.single()
+                    info = st.syminfo.get(sg[0]) if sg and sg[1] == 1 and after.a.c == 0 else None
+                    if info is not None and info.defn and info.defn[0] == 'addw' and info.defn[1].add(info.defn[2]) == want:
+                        ok = True      # the same sum modulo 2^w (overflow cannot be excluded for an unconstrained counter)
+                    elif st.store.entails_eq0(after.a.sub(want)):
+                        ok = True
+            self.log.append(('wcount', ok, loc, repr(before), repr(bsize), repr(after), st.tags.get('wentry')))
+
     def on_copy(self, st, rd, doff, rs, soff, length, ins):
         if rd.name == 'WBUF':
             self.log.append(('wbuf-write', ins.loc(), repr(doff), repr(length.a)))
